@@ -45,6 +45,7 @@ def run(ctx):
     c16.r161(ctx, ctx.repo['writer'])
     c01.r11(ctx)
     c01.r12_units(ctx, 'R2.8')
+    r29(ctx)
     r27(ctx)
     from . import callsigs as _cs
     from . import c11 as _c11
@@ -600,3 +601,41 @@ def r27(ctx, rule='R2.7'):
     ctx.ob(rule, 'writer.write_column:page-loop-uses-the-whole-column-only-to-slice-or-inspect-its-dtype', not bad,
            'inside the per-page loop `%s` is used other than as %s.iloc[row_start:row_end] / %s.dtype: %s (each page must '
            'hold exactly its own rows)' % (col, col, col, bad or 'nowhere'), m.loc(loop))
+
+
+def r29(ctx, rule='R2.9'):
+    """write_column: the codec option may be a name or a dict {'type': ..., 'args': ...}.  String methods on it
+    (`compression.upper()`) are only reachable when it is known not to be a dict, and the dictionary page is compressed
+    under the same condition as the data pages of the chunk"""
+    wr = ctx.repo['writer']
+    f = wr.func('write_column')
+    n = 0
+    for c in walk_no_nested(f):
+        if isinstance(c, ast.Call) and isinstance(c.func, ast.Attribute) and c.func.attr in ('upper', 'lower') and norm(c.func.value) == 'compression':
+            n += 1
+            # an enclosing BoolOp must test isinstance(compression, dict) before it (or-short-circuit), or an enclosing if
+            ok = False
+            for b in walk_no_nested(f):
+                if isinstance(b, ast.BoolOp) and any(y is c for y in ast.walk(b)):
+                    txt = [norm(v) for v in b.values]
+                    idx = [i for i, v in enumerate(b.values) if any(y is c for y in ast.walk(v))][0]
+                    if isinstance(b.op, ast.Or) and any('isinstance(compression, dict)' == t for t in txt[:idx]):
+                        ok = True
+                    if isinstance(b.op, ast.And) and any(t in ('not isinstance(compression, dict)', 'isinstance(compression, str)') for t in txt[:idx]):
+                        ok = True
+            ctx.ob(rule, 'writer.write_column:string-method-on-the-codec-only-when-it-is-not-a-dict:%s' % norm(c)[:30], ok,
+                   '`%s` is reached with a dict codec ({"type": ..., "args": ...})' % norm(c), wr.loc(c))
+    comp = [c for c in walk_no_nested(f) if isinstance(c, ast.Call) and callee(c) == 'compress_data']
+    cfg = CFG(f)
+    guards = []
+    for c in comp:
+        st = None
+        for nd in cfg.nodes:
+            if nd.stmt is not None and any(y is c for y in ast.walk(nd.stmt)) and not isinstance(nd.stmt, (ast.If, ast.For, ast.While, ast.Try, ast.With)):
+                st = nd.stmt
+        t = [norm(e.test) for e, fld in cfg.enclosing_tests(st) if isinstance(e, ast.If) and fld == 'body' and 'compress' in norm(e.test)]
+        guards.append(t[-1] if t else '')
+    ctx.floor(rule, 'compress_data call sites in write_column', len(comp), 3)
+    ctx.ob(rule, 'writer.write_column:dictionary-and-data-pages-compressed-under-the-same-condition',
+           len(set(g for g in guards if g not in ('is_compressed',))) == 1,
+           'guards of the compress_data calls: %s' % guards, wr.loc(f))
